@@ -1,4 +1,4 @@
-import NumbatModel.Lemmas.Qty
+import NumbatModel.Lemmas.QtyCanon
 set_option linter.unusedSectionVars false
 /-!
 # C04 — conversion yields exactly the requested unit and the same quantity
@@ -87,10 +87,48 @@ theorem convert_transitive (tbl : Table α) (hp : PosTbl tbl) (q qw qu qd : Quan
   refine ⟨by grind, ?_⟩
   rw [convert_unit tbl qw qu U h2, convert_unit tbl q qd U h3]
 
+theorem convert_zero' {β : Type} [NumOps β] (tbl : Table β) (q : Quantity β) (U : Unit) (hz : q.isZero = true) :
+    convertTo tbl q U = .ok ⟨q.value, U, true⟩ := by
+  unfold convertTo
+  simp [hz]
+
 /-- A zero converts to every unit, keeping the magnitude zero. -/
 theorem convert_zero (tbl : Table α) (q : Quantity α) (U : Unit) (hz : q.isZero = true) :
     convertTo tbl q U = .ok ⟨q.value, U, true⟩ := by
   unfold convertTo
   simp [hz]
+
+
+/-- A conversion succeeds exactly when the quantity is zero or source and target have the same dimension
+vector (for unit tables with distinct names). -/
+theorem convert_ok_iff {β : Type} [NumOps β] (tbl : Table β) (hn : NamesDistinct tbl) (q : Quantity β) (U : Unit) :
+    (∃ q', convertTo tbl q U = .ok q') ↔ (q.isZero = true ∨ ∀ b, unitVec tbl q.unit b = unitVec tbl U b) := by
+  constructor
+  · rintro ⟨q', h⟩
+    unfold convertTo at h
+    split at h
+    · rename_i hc
+      rcases Bool.or_eq_true _ _ ▸ hc with he | hz
+      · right
+        intro b
+        unfold unitEq at he
+        have : canon tbl q.unit = canon tbl U := by simpa using he
+        rw [← unitVec_canon tbl q.unit, this, unitVec_canon]
+      · left; exact hz
+    · right
+      simp only at h
+      split at h
+      · rename_i he
+        have he' : baseRep tbl (canon tbl (Unit.div q.unit (commonFactors (canon tbl q.unit) (canon tbl U))))
+            = baseRep tbl (canon tbl (Unit.div U (commonFactors (canon tbl q.unit) (canon tbl U)))) := by
+          simpa using he
+        intro b
+        have h1 := congrArg (fun l => vecOfBase l b) he'
+        simp only [baseRep, vecOfBase_canonBase, vecOfBase_baseRepRaw, unitVec_canon, Unit.div, unitVec_append] at h1
+        grind
+      · cases h
+  · rintro (hz | hv)
+    · exact ⟨_, convert_zero' tbl q U hz⟩
+    · exact convComplete tbl hn q U hv
 
 end NumbatModel.Qty
